@@ -10,7 +10,7 @@ import z3
 from . import drv, vals, solve, validate, mpc_common as mc, speccheck
 from . import check_c16, check_c17  # registers the specs
 from .cctypes import T
-from .common import Check, pool_map
+from .common import Check, pool_map, safe_analyze
 from .interp import Interp, Unsupported, flat_elems, Arr
 from .prog import CB
 from .validate import op_name
@@ -157,6 +157,7 @@ def jobs_for(case):
     return jobs
 
 
+@safe_analyze(lambda a: dict(id=a[0]["id"], status=None, queries=[], note="", findings=[], n_nodes=0, spec_checked=0, single_checked=0))
 def analyze(args):
     case, results, timeout_s = args
     out = dict(id=case["id"], status=None, queries=[], note="", findings=[], n_nodes=0, spec_checked=0, single_checked=0)
